@@ -291,13 +291,17 @@ impl<'a> Tokenizer<'a> {
                 return Ok(Token::ArbitraryBlockData(u8str));
             }
 
-            let payload_len = lexical_core::parse::<usize>(
-                self.chars
-                    .as_slice()
-                    .get(..len as usize)
-                    .ok_or(ErrorCode::InvalidBlockData)?,
-            )
-            .map_err(|_| ErrorCode::InvalidBlockData)?;
+            let len_field = self
+                .chars
+                .as_slice()
+                .get(..len as usize)
+                .ok_or(ErrorCode::InvalidBlockData)?;
+            // The length field consists of digits only (lexical-core would accept a sign)
+            if !len_field.iter().all(u8::is_ascii_digit) {
+                return Err(ErrorCode::InvalidBlockData);
+            }
+            let payload_len =
+                lexical_core::parse::<usize>(len_field).map_err(|_| ErrorCode::InvalidBlockData)?;
             self.chars.nth(len as usize - 1).unwrap();
             let u8str = self
                 .chars
